@@ -20,6 +20,7 @@ const fixtureSrc = `package proto
 
 import (
 	"io"
+	"strconv"
 
 	"github.com/go-faster/errors"
 )
@@ -85,6 +86,29 @@ func verifFixtureTail(b *Buffer, v []uint16) {
 	}
 }
 
+// C06.config: a parsed number sizes the decoder's allocation unchecked.
+func verifFixtureParsedSize(c *ColFixedStr, s string) error {
+	n, err := strconv.Atoi(s)
+	if err != nil {
+		return err
+	}
+	c.Size = n
+	return nil
+}
+
+// C06.config negative control: range-checked.
+func verifFixtureParsedSizeChecked(c *ColFixedStr, s string) error {
+	n, err := strconv.Atoi(s)
+	if err != nil {
+		return err
+	}
+	if n <= 0 || n > 1024 {
+		return errors.New("size")
+	}
+	c.SetSize(n)
+	return nil
+}
+
 // C08: interprets a partial read.
 func verifFixtureRawRead(r io.Reader, buf []byte) (int, error) {
 	n, err := r.Read(buf)
@@ -129,8 +153,10 @@ func runFixtures(c *Ctx, prop string) {
 		fn  string
 		bad bool
 	}
-	var e6, e4, raw []exp
+	var e6, e4, raw, conf []exp
 	switch prop {
+	case "C06":
+		conf = []exp{{"verifFixtureParsedSize", true}, {"verifFixtureParsedSizeChecked", false}}
 	case "C07":
 		e6 = []exp{{"verifFixtureSwallowEOF", true}, {"verifFixtureDiscard", true}, {"verifFixtureBreak", true}, {"verifFixtureGood", false}}
 	case "C01", "C14", "C15":
@@ -176,6 +202,31 @@ func runFixtures(c *Ctx, prop string) {
 		}
 		viol, _ := analyseBuffer(fn)
 		record(x.fn, "E4 append-only buffer", x.bad, len(viol) > 0)
+	}
+	if len(conf) > 0 {
+		fields := configFields(p)
+		setters := configSetters(p, fields)
+		bc := newBoundCtx(p)
+		for _, x := range conf {
+			fn := fns[x.fn]
+			if fn == nil {
+				record(x.fn, "C06.config", x.bad, !x.bad)
+				continue
+			}
+			sites, checked := parsedConfigStores(bc, fn, fields, setters)
+			got := len(sites) == 0 // no site found at all counts as a miss for both polarities
+			if len(sites) > 0 {
+				got = false
+				for _, ok := range checked {
+					if !ok {
+						got = true
+					}
+				}
+			} else {
+				got = !x.bad
+			}
+			record(x.fn, "C06.config parsed configuration", x.bad, got)
+		}
 	}
 	for _, x := range raw {
 		fn := fns[x.fn]
